@@ -277,16 +277,30 @@ def gen_trx_text(tx):
         rows.append("  (%d,%d,%d,%d,%s,\n   [%s])" % (l["cfg"], l["period"], l["slotmask"], l["mask"], _z(l["n"]),
                                                      ";".join(_tup(f) for f in l["frames"])))
     t += ";\n".join(rows) + "\n].\n"
+    t += ("\n(* the real l1sched_chan_nr2pchan_config(chan_nr) of sched_trx.c for chan_nr = 0..255 (through charness/c11_trxcon_cfg.c resolve) *)\n"
+          "Definition tx_resolve : list Z := " + common.zlist(tx["resolve"]) + ".\n")
     t += ("\n(* the real l1sched_mframe_layout(config, tn) for config = 0..127 (row), tn = 0..7 (column): index into layouts[], -1 = NULL *)\n"
           "Definition tx_lookup : list (list Z) := [\n")
     t += ";\n".join("  " + common.zlist(tx["lookup"][c]) for c in range(128)) + "\n].\n"
     return t
 
 
+def dump_resolver(bins):
+    """the real l1sched_chan_nr2pchan_config() (sched_trx.c) for all 256 channel numbers"""
+    pr = subprocess.run([bins["c11_trxcon_cfg"], "resolve"], stdout=subprocess.PIPE, stderr=subprocess.PIPE, text=True, timeout=120,
+                        env=dict(os.environ, ASAN_OPTIONS="detect_leaks=0"))
+    rc, out, err = pr.returncode, pr.stdout, pr.stderr
+    rows = [l.split() for l in out.splitlines()]
+    if rc != 0 or len(rows) != 256 or any(len(r) != 2 or int(r[0]) != i for i, r in enumerate(rows)):
+        raise RuntimeError("c11_trxcon_cfg resolve failed rc=%d\n%s" % (rc, err[-2000:]))
+    return [int(r[1]) for r in rows]
+
+
 def gen(ctx):
     bins = build_c(ctx)
     fw = dump_fw(bins)
     tx = dump_trx(bins)
+    tx["resolve"] = dump_resolver(bins)
     ctx.gen("MframeFw", gen_fw_text(fw))
     ctx.gen("MframeTrxcon", gen_trx_text(tx))
     return bins, fw, tx
@@ -1418,6 +1432,30 @@ def run(ctx):
                 ctx.oracle_fail("frames of the layout use channels that get no channel state when the timeslot is configured: " + ", ".join(names.get(c, str(c)) for c in missing),
                                 dict(config=cfg, tn=tn, layout=li, name=L.get("name")), key="c11-no-channel-state:layout%d" % li, expected=sorted(used), observed=sorted(have))
 
+    # ---- (7) l1sched_chan_nr2pchan_config(): the real resolver against the model (all 256 channel numbers) and, per table row and timeslot,
+    #          on the channel number the real mframe_task2chan_nr() reports for the row's task
+    rs = tx["resolve"]
+    ctx.correspond("chan_nr2pchan_config", "Mframe", list(range(256)) + [256, -1], lambda c: "w_c11_resolve %d" % c,
+                   lambda c: [rs[c]] if 0 <= c < 256 else [-999], show=lambda c: dict(chan_nr=c))
+    pname = {v: k for k, v in tx["pchan"].items()}
+    rows_all = spec_rows()
+    for ri, (task, cfg, tnrule, mode, lchan, sacch) in enumerate(rows_all):
+        combos = sorted(set(r[1] for r in rows_all if (r[0], r[2], r[3], r[4], r[5]) == (task, tnrule, mode, lchan, sacch)))
+        dedicated = lchan not in ("L1SCHED_BCCH", "L1SCHED_CCCH")
+        for tn in range(8):
+            cn = fw["chnr"][fw["tasks"][task]][tn]
+            got = rs[cn & 0xff]
+            ctx.evaluations += 1
+            ctx.nontrivial(("resolve", task, pname.get(got, got)))
+            ok = (pname.get(got) in combos) if dedicated else (got == tx["pchan"]["GSM_PCHAN_NONE"])
+            if not ok:
+                _capped_fail(ctx, "l1sched_chan_nr2pchan_config(0x%02x) = %s, but 0x%02x is the channel number of %s on timeslot %d, which the table has under %s: "
+                             "trxcon configures a layout that does not give this channel its frames"
+                             % (cn, pname.get(got, got), cn, task, tn, " / ".join(combos) if dedicated else "no combination (common channel)"),
+                             dict(chan_nr=cn, task=task, tn=tn, resolved=pname.get(got, got), row=ri, lchan=lchan, expected=combos if dedicated else ["GSM_PCHAN_NONE"]),
+                             "c11-chan-nr-resolves-%s" % task.replace("MF_TASK_", "").lower())
+    ctx.count("oracle:chan_nr resolutions", 8 * len(rows_all))
+
     # ---- (6) the firmware scheduler state: histories of enable / disable / set / reset requests interleaved with ticks
     run_histories(ctx, bins, fw, tx, thorough)
 
@@ -1460,6 +1498,7 @@ def run(ctx):
                          "frame for k = 1..n+1 (k-1 losses; all k on one timeslot per combination, boundary k on the others), gaps of exactly period, period+1, 2 periods, "
                          "0, half a hyperframe, out-of-order and back-a-period bursts, poked statistics (num_proc near 2^64, last_proc and fn up to 2^32-1), inactive channels, "
                          "combinations without layout, malformed lines; pull_burst / probe over 2 periods per timeslot and every frame of the first and last 51x26x8 cycle per combination. "
+                         "l1sched_chan_nr2pchan_config for all 256 channel numbers and on the firmware's channel number of every table row x timeslot; "
                          "firmware scheduler state: the real mframe_enable/disable/set/reset/schedule in histories - a request at each of the 51 phases while another task runs "
                          "(safe and unsafe ticks, mid-hyperframe and across 2715647->0), a disable at every third phase, task groups switched on by mframe_set and off one by one, "
                          "random histories (consecutive frames, jumps, resets, silent runs), poked states (safe_fn around fn, at the sentinel, beyond the hyperframe; fn up to 2^32-1), "
